@@ -54,6 +54,13 @@ func (t *UTransport) dial(ctx context.Context, addr net.Addr, host string, tlsCo
 		if t.QUICSpec.UDPDatagramMinSize > protocol.MaxPacketBufferSize {
 			return nil, fmt.Errorf("uquic: UDPDatagramMinSize %d exceeds the maximum datagram size %d", t.QUICSpec.UDPDatagramMinSize, protocol.MaxPacketBufferSize)
 		}
+	}
+	// The field is written as part of the one-time initialization: dials run concurrently
+	// with each other and with Close on the same transport, all of which go through init().
+	configure := func() {
+		if t.QUICSpec == nil {
+			return
+		}
 		if t.QUICSpec.InitialPacketSpec.SrcConnIDLength != 0 {
 			t.ConnectionIDGenerator = &protocol.DefaultConnectionIDGenerator{ConnLen: t.QUICSpec.InitialPacketSpec.SrcConnIDLength}
 		} else {
@@ -62,7 +69,7 @@ func (t *UTransport) dial(ctx context.Context, addr net.Addr, host string, tlsCo
 	}
 	// [/UQUIC]
 
-	if err := t.init(t.isSingleUse); err != nil {
+	if err := t.initWith(t.isSingleUse, configure); err != nil {
 		return nil, err
 	}
 	if err := validateConfig(conf); err != nil {
